@@ -348,6 +348,17 @@ def compare(model, d):
     return P
 
 
+def reject_first(k, seed):
+    """every fourth text is parsed right after a text the parser rejects half-way (another design cut off in the middle of a section):
+    a failed parse must leave nothing behind"""
+    if k % 4 != 1: return False
+    other = render(gen_model(k + 1000, seed))
+    cut = other[:int(len(other) * 0.6)]
+    try: def_file.parse(cut)
+    except Exception: return True
+    return False
+
+
 def text_job(job):
     k, seed = job
     rep = common.Report()
@@ -355,6 +366,7 @@ def text_job(job):
     txt = render(model)
     rep.counts['texts'] += 1
     try:
+        if reject_first(k, seed): rep.counts['texts_after_rejected_text'] += 1
         d = def_file.parse(txt)
         P = compare(model, d)
     except Exception as e:
@@ -373,6 +385,7 @@ def replay(data):
     if data['mode'] == 'ir': return replay_ir(data)
     model = gen_model(data['k'], data['seed'])
     try:
+        reject_first(data['k'], data['seed'])
         P = compare(model, def_file.parse(render(model)))
     except Exception as e:
         return True, f'{type(e).__name__}: {e}'
